@@ -57,7 +57,7 @@ Reset ==
 
 RestartLine ==
   /\ l <= Len(TraceLog) /\ Line.ev = "restart"
-  /\ Restart
+  /\ Restart(Line.rf)                    \* rf: "none" | "tombUnreadable" (open() fails while NewResolver runs)
   /\ rootKeys' = SetOf(Line.trusted)
   /\ Consume
 
